@@ -580,6 +580,10 @@ def step (autoCreate : Bool) (d : Data) (c : Cmd) (term index : Nat) : Data × O
   | .ok d' => ({ d' with term := term, index := index }, none)
   | .error e => ({ d with term := term, index := index }, some e)
 
+/-- `Client.pollForUpdates`: the index of the metadata the client holds after a meta server
+answered with metadata of index `i` — an answer older than what the client has is ignored -/
+def clientInstall (held i : Nat) : Nat := if i < held then held else i
+
 /-- everything except the stamp -/
 def Data.payload (d : Data) : Data := { d with term := 0, index := 0 }
 
